@@ -1,5 +1,6 @@
 import functools as ft
 import inspect
+import json
 from typing import Any, Callable, Dict, Iterable, List, Optional
 
 import pydantic
@@ -53,7 +54,9 @@ class PydanticValidator(base.BaseValidator):
         try:
             obj = params_model(**bound_params.arguments)
         except pydantic.ValidationError as e:
-            raise base.ValidationError(*e.errors()) from e
+            # raw errors may contain objects that are not json-serializable (e.g. an exception raised by a custom
+            # validator inside the error context), so pydantic's own json representation of the errors is used
+            raise base.ValidationError(*json.loads(e.json())) from e
 
         return {attr: getattr(obj, attr) for attr in obj.model_fields} if self._coerce else bound_params.arguments
 
